@@ -43,6 +43,18 @@ use super::*;
 #[allow(unused_imports)] use super::shim::Decimal;
 //%include haloswap_pairmsg.rs
 }
+pub mod factoryq {
+use super::*;
+//%include haloswap_factoryq.rs
+}
+pub mod querier {
+use super::*;
+#[allow(unused_imports)] use super::shim::Decimal;
+use super::factoryq::{NativeTokenDecimalsResponse, QueryMsg as FactoryQueryMsg};
+use super::pairmsg::{QueryMsg as PairQueryMsg, ReverseSimulationResponse, SimulationResponse};
+//%include haloswap_querier.rs
+}
+pub use querier::*;
 pub mod router {
 use super::*;
 #[allow(unused_imports)] use super::shim::Decimal;
